@@ -30,6 +30,14 @@ type LoopSpec struct {
 	Vars       []string // anchor: phi names expected at that header
 	Invariants []Clause
 	Decreases  *Clause
+	Steps      []Clause // hold at the end of every iteration (loop variables = values for the next iteration)
+	Exits      []Clause // hold whenever the loop is left by break/return (not by its normal termination)
+}
+
+// AtSpec: an assertion attached to the instructions whose source text contains Text.
+type AtSpec struct {
+	Text string
+	C    Clause
 }
 
 type Unit struct {
@@ -42,6 +50,7 @@ type Unit struct {
 	Modifies []string // raw items; nil = inferred; "nothing"
 	HasMod   bool
 	ModInferred bool // modifies = the inferred write set of the body, plus the listed items
+	Ats      []AtSpec
 	MemoClass string    // memoize CLASS: value class of the build-cache keys made in this function (C13)
 	Pins     []EnumSpec // pins OBJ [except f,...]: every field of OBJ's struct type is assigned on every path
 	Visits   []EnumSpec // visits OBJ FUNC ARGIDX [except f,...]: every (pointer) field of OBJ is passed to FUNC
@@ -105,7 +114,7 @@ func NewContracts() *Contracts {
 	return &Contracts{Units: map[string]*Unit{}, Specs: map[string]*SpecFunc{}, Ghosts: map[string]*GhostVar{}, GhostFields: map[string]map[string]*GhostField{}}
 }
 
-var clauseKeywords = map[string]bool{"memoize": true, "pins": true, "visits": true, "requires": true, "ensures": true, "modifies": true, "invariant": true,
+var clauseKeywords = map[string]bool{"step": true, "exits": true, "at": true, "memoize": true, "pins": true, "visits": true, "requires": true, "ensures": true, "modifies": true, "invariant": true,
 	"decreases": true, "loop": true, "func": true, "spec": true, "define": true, "axiom": true, "ghost": true,
 	"opts": true, "pure": true, "end": true, "trusted": true}
 
@@ -308,6 +317,45 @@ func (c *Contracts) ParseFile(path, pkgPath string) error {
 			}
 			cur.Loops[ord] = ls
 			curLoop = ls
+		case "step", "exits":
+			if curLoop == nil {
+				return fmt.Errorf("%s:%d: %s outside loop", path, r.line, r.kw)
+			}
+			cl, err := mkClause(r)
+			if err != nil {
+				return err
+			}
+			if r.kw == "step" {
+				curLoop.Steps = append(curLoop.Steps, cl)
+			} else {
+				curLoop.Exits = append(curLoop.Exits, cl)
+			}
+		case "at":
+			// at "source text" requires [label:] EXPR
+			if cur == nil {
+				return fmt.Errorf("%s:%d: at outside func", path, r.line)
+			}
+			t := strings.TrimSpace(r.text)
+			if !strings.HasPrefix(t, "\"") {
+				return fmt.Errorf("%s:%d: at \"text\" requires EXPR", path, r.line)
+			}
+			end := strings.Index(t[1:], "\"")
+			if end < 0 {
+				return fmt.Errorf("%s:%d: unterminated text", path, r.line)
+			}
+			txt := t[1 : 1+end]
+			rest := strings.TrimSpace(t[2+end:])
+			if !strings.HasPrefix(rest, "requires ") {
+				return fmt.Errorf("%s:%d: at \"text\" requires EXPR", path, r.line)
+			}
+			r2 := r
+			r2.text = strings.TrimSpace(rest[len("requires "):])
+			cl, err := mkClause(r2)
+			if err != nil {
+				return err
+			}
+			cur.Ats = append(cur.Ats, AtSpec{Text: txt, C: cl})
+			curLoop = nil
 		case "invariant":
 			if curLoop == nil {
 				return fmt.Errorf("%s:%d: invariant outside loop", path, r.line)
